@@ -14,19 +14,28 @@ import shutil
 import tempfile
 import warnings
 
+import numpy as np
 import lazy_dataset
 
 
 def make_example(rng, depth=0):
     r = rng.random()
-    if depth >= 2 or r < 0.3:
+    if depth >= 3 or r < 0.25:
+        if r < 0.04:
+            return np.arange(rng.randint(1, 4))            # mutable in place although a "leaf"
+        if r < 0.07:
+            return set(range(rng.randint(0, 3)))
         return rng.randint(0, 99)
-    if r < 0.65:
+    if r < 0.55:
         return [make_example(rng, depth + 1) for _ in range(rng.randint(0, 3))]
+    if r < 0.70:
+        # a tuple cannot be re-assigned, but what it holds can be mutated
+        return tuple(make_example(rng, depth + 1) for _ in range(rng.randint(1, 3)))
     return {k: make_example(rng, depth + 1) for k in rng.sample(['x', 'y', 'z', 'w'], rng.randint(0, 3))}
 
 
 def containers(obj, out):
+    """every mutable container reachable from `obj` (through tuples as well)"""
     if isinstance(obj, list):
         out.append(obj)
         for v in obj:
@@ -35,7 +44,25 @@ def containers(obj, out):
         out.append(obj)
         for v in obj.values():
             containers(v, out)
+    elif isinstance(obj, tuple):
+        for v in obj:
+            containers(v, out)
+    elif isinstance(obj, (np.ndarray, set)):
+        out.append(obj)
     return out
+
+
+def deq(a, b):
+    """deep equality that also compares arrays element-wise and insists on equal container types"""
+    if isinstance(a, np.ndarray) or isinstance(b, np.ndarray):
+        return isinstance(a, np.ndarray) and isinstance(b, np.ndarray) and a.shape == b.shape and bool((a == b).all())
+    if type(a) is not type(b):
+        return False
+    if isinstance(a, (list, tuple)):
+        return len(a) == len(b) and all(deq(x, y) for x, y in zip(a, b))
+    if isinstance(a, dict):
+        return list(a) == list(b) and all(deq(a[k], b[k]) for k in a)
+    return a == b
 
 
 def mutate(rng, obj):
@@ -45,6 +72,12 @@ def mutate(rng, obj):
         return None
     c = rng.choice(cs)
     how = rng.choice(['set', 'append', 'clear', 'del', 'nest'])
+    if isinstance(c, np.ndarray):
+        c[rng.randrange(len(c))] = -77
+        return 'array-set'
+    if isinstance(c, set):
+        c.add('MUTATED')
+        return 'set-add'
     if isinstance(c, list):
         if how == 'set' and c:
             c[rng.randrange(len(c))] = 'MUTATED'
@@ -139,7 +172,7 @@ def one_history(rng, mode, tmpdirs):
                 if ent[0] == 'items':
                     obj = obj[1]
                 steps.append(('next', ent[0], ent[2]))
-                if obj != pristine[ent[2]]:
+                if not deq(obj, pristine[ent[2]]):
                     fails.append(('handed_out_differs_from_stored', {'mode': mode, 'path': 'live ' + ent[0], 'position': ent[2],
                                                                       'got': repr(obj)[:200], 'stored': repr(pristine[ent[2]])[:200],
                                                                       'steps': steps[:]}))
@@ -155,7 +188,7 @@ def one_history(rng, mode, tmpdirs):
                 how, got = access(rng, ds, n, keys)
                 steps.append(('access', how))
                 for pos, obj in got:
-                    if obj != pristine[pos]:
+                    if not deq(obj, pristine[pos]):
                         fails.append(('handed_out_differs_from_stored', {'mode': mode, 'path': how, 'position': pos,
                                                                           'got': repr(obj)[:200], 'stored': repr(pristine[pos])[:200],
                                                                           'steps': steps[:]}))
